@@ -29,14 +29,24 @@ def lay1(ctx, c):
     flat = flatten(repo, fn, depth=2, only={m_ for m_ in repo.cls("Program").methods if m_ not in ("process_mnemonics", "save_symbol", "all_sizes_fixed", "parse")})
     body = body_without_doc(flat)
     pos = {}
+    st_methods = repo.cls("Statement").methods if repo.has_cls("Statement") else {}
+
+    def with_callees(node):
+        """the text of a statement plus the bodies of the Statement methods it calls on other objects (statement.place(x) -> the body of place)"""
+        t_ = U(node)
+        for x in ast.walk(node):
+            if isinstance(x, ast.Call) and isinstance(x.func, ast.Attribute) and x.func.attr in st_methods and not (isinstance(x.func.value, ast.Name) and x.func.value.id == "self") \
+                    and x.func.attr not in ("translate", "resolve_symbols", "set_address", "fix_addresses", "determine_pcr_relative_sizes"):
+                t_ += "\n" + U(st_methods[x.func.attr].node).replace("self.", "statement.")
+        return t_
     for i, st in enumerate(body):
-        t = U(st)
+        t = with_callees(st)
         for name, pred in PHASES:
             if pred(t) and name not in pos:
                 pos[name] = (i, st)
     missing = [n for n, _ in PHASES if n not in pos]
     if missing:
-        whole = U(flat)
+        whole = with_callees(flat)
         really = [n for n, pred in PHASES if n in missing and not pred(whole)]
         if really:
             c.finding("translate_statements:phases", "phase(s) missing: %s" % ", ".join(really),
@@ -743,6 +753,32 @@ def exp1(ctx, c):
             envs[cn] = _Cr(cn)
         envs.update({"self.value": "SYM"})
         evs_, nts_ = [], []
+
+        def _dispatch(r, name, avals, _hk=hk, _nts=nts_, _envs=envs):
+            # any other method called on the table entry is the one its class defines (a label is an AddressValue, a constant a NumericValue,
+            # anything else stands for a string): read with the entry as `self`
+            real = {"address": "AddressValue", "numeric": "NumericValue", "other": "StringValue"}.get(r.attrs.get("kind"))
+            m_ = repo.method(real, name) if real and repo.has_cls(real) else None
+            if m_ is None:
+                _nts.append("%s.%s not found" % (real, name))
+                return _Ds("%r.%s()" % (r, name))
+            envm = {k: v for k, v in _envs.items() if not (isinstance(k, str) and k.startswith("self."))}
+            envm.pop("$return", None)
+            envm.update(dict(zip([p_ for p_ in m_.params if p_ != "self"], avals)))
+            envm["self.int"] = r.attrs.get("int")
+            hkm = dict(_hk)
+            for pn_ in ("is_address", "is_numeric"):
+                hkm[("self", pn_)] = (lambda a, _p=pn_, _r=r: _hk[("*", _p)](_r, a))
+            sub_nt = []
+            end_m = _rcx(body_without_doc(m_.node), envm, [], sub_nt, hooks=hkm)
+            _nts.extend(sub_nt)
+            if end_m and end_m.startswith("raise"):
+                _nts.append("%s.%s raises" % (real, name))
+            out_ = envm.get("$return")
+            if isinstance(out_, _Ds) and "(" in str(out_):
+                _nts.append("%s.%s returns the result of a call that is not expanded" % (real, name))
+            return out_
+        hk[("*", "*")] = _dispatch
         end_ = _rcx(body_without_doc(sv.node), envs, evs_, nts_, hooks=hk)
         ev_nt += nts_
         rv = envs.get("$return")
